@@ -218,6 +218,12 @@ func (t *State) verifySignatures(tx *pb.Transaction, digestHash []byte) (bool, m
 	// verify initiator
 	akType := aclu.IsAccount(tx.Initiator)
 	if akType == 0 {
+		// the initiator is one key: of a path only the last segment would be checked against the
+		// signature, and the keys in front of it would count as verified in the permission checks
+		if strings.Contains(tx.Initiator, "/") {
+			t.log.Warn("verifySignatures failed, a key initiator must not be a path", "address", tx.Initiator)
+			return false, nil, ErrInvalidSignature
+		}
 		// check initiator address signature
 		ok, err := aclu.IdentifyAK(tx.Initiator, tx.InitiatorSigns[0], digestHash)
 		if err != nil || !ok {
